@@ -65,6 +65,9 @@ class Code38(Code3):
 
     """
 
+    # 3.8 and 3.9 read the line increments of co_lnotab as signed bytes.
+    lnotab_signed = True
+
     def __init__(
         self,
         co_argcount: int,
